@@ -219,3 +219,8 @@ PROPS['C16'].update(run_files=['Tie.v', 'TieWf.v'], static_files=MACH_STATIC)
 for _p in ('C01', 'C02', 'C13'):
     PROPS[_p]['run_files'] = PROPS[_p]['run_files'] + ['PropsC02.v']
     PROPS[_p]['static_files'] = PROPS[_p]['static_files'] + ['ApiFacts.v', 'Ref.v', 'SpecFacts.v']
+
+PROPS['C20'].update(suites=['c20hints'], run_files=['Tie.v', 'TieFast.v'], static_files=BASE_STATIC + ['Cost.v'])
+TEXT['C20']['level'] = ('PARTIAL: proof-of-model + measurement. Coq (Cost.v): the size-hint bookkeeping as a pure model; with previous-sibling hints the sum of all hints over any history of calls is at most the first remembered hint plus the total of all sizes (prev_sibling_linear, reuse_pays_once); the pre-fix running maximum is proved quadratic and never-forgetting (running_max_quadratic, running_max_never_forgets). The model is tied to the code by comparing the reader\'s remembered hints (verif hook) with Cost.remembered_prev over call histories. Run time: TotalAlloc of 15 adversarial families at 3 sizes must stay linear and below a fixed constant per input byte')
+
+PROPS['C13']['static_files'] = PROPS['C13']['static_files'] + ['ExclusiveFacts.v']
